@@ -5,6 +5,7 @@ package main
 // call can be made to fail (error or short write).  Used by C11 (contract) and C15 (faults).
 
 import (
+	"path/filepath"
 	"io"
 	"syscall"
 	"errors"
@@ -32,6 +33,8 @@ type recFs struct {
 	kind    string // "error" | "short"
 	persist bool   // every call from faultAt on fails (the medium is gone), not only that one
 	name    string
+	// like a real file system (and unlike afero's MemMapFs), creating a file in a directory that does not exist fails with ENOENT
+	strictDir bool
 }
 
 func newRecFs() *recFs { return &recFs{inner: afero.NewMemMapFs(), name: "MemMapFS"} }
@@ -104,6 +107,13 @@ func (r *recFs) OpenFile(name string, flag int, perm os.FileMode) (afero.File, e
 	i, f := r.hit(fsCall{Op: "OpenFile", Path: name, Flag: flag})
 	if f {
 		return nil, r.fail(i)
+	}
+	if r.strictDir && flag&os.O_CREATE != 0 {
+		if ok, _ := afero.DirExists(r.inner, filepath.Dir(name)); !ok {
+			err := &os.PathError{Op: "open", Path: name, Err: syscall.ENOENT}
+			r.seterr(i, err)
+			return nil, err
+		}
 	}
 	fl, err := r.inner.OpenFile(name, flag, perm)
 	r.seterr(i, err)
